@@ -434,7 +434,7 @@ func cmdReplay(path string, workers int) {
 	type job struct{ beh []event }
 	jobs := make(chan job, 1024)
 	var wg sync.WaitGroup
-	var nBeh, nSteps, nNontriv, nMis int64
+	var nBeh, nSteps, nNontriv, nMis, nSkipped int64
 	var infra atomic.Value
 	var samples []interface{}
 	var smu sync.Mutex
@@ -443,6 +443,12 @@ func cmdReplay(path string, workers int) {
 		go func() {
 			defer wg.Done()
 			for j := range jobs {
+				if atomic.LoadInt64(&nMis) >= 2000 {
+					// the verdict is established many times over: behaviours that run into a missing response
+					// each wait for it, and replaying the rest would only take time
+					atomic.AddInt64(&nSkipped, 1)
+					continue
+				}
 				v, steps, nt, err := replay(j.beh)
 				atomic.AddInt64(&nBeh, 1)
 				atomic.AddInt64(&nSteps, int64(steps))
@@ -477,7 +483,8 @@ func cmdReplay(path string, workers int) {
 	})
 	close(jobs)
 	wg.Wait()
-	sum := map[string]interface{}{"behaviours": nBeh, "steps": nSteps, "nontrivial": nNontriv, "mismatches": nMis, "samples": samples}
+	sum := map[string]interface{}{"behaviours": nBeh, "steps": nSteps, "nontrivial": nNontriv, "mismatches": nMis, "samples": samples,
+		"skipped_after_2000_mismatches": nSkipped}
 	if err != nil {
 		sum["infra_error"] = err.Error()
 	} else if e := infra.Load(); e != nil {
